@@ -8,6 +8,7 @@
 import PandoraModel.Model.CrossCheck
 import PandoraModel.Properties.Flags
 import PandoraModel.Generated.Constants
+import PandoraModel.Generated.RefineCC
 import Mathlib.Tactic.Linarith
 import Mathlib.Tactic.Ring
 import Mathlib.Algebra.Order.Field.Basic
@@ -592,5 +593,26 @@ theorem cc_outside_counterexample :
     ∧ (check .orFix exParams { disp := [[.num 0, .num 0, .num 0, .num 3]], mask := [[0, 0, 0, 0]] }
         { disp := [[.num 2, .num 2, .num 2, .num 2]], mask := [[0, 0, 0, 0]] }).mask = [[256, 256, 512, 256]] := by
   decide +kernel
+
+
+/-! ## The source as it is now (`Generated/RefineCC.lean`, regenerated from the source text on every run) -/
+
+/-- which repair of C07-F1 the source carries, read from its text -/
+def sourceVariant : Variant :=
+  if Generated.RefineCC.outsideSearched then .ruleFix
+  else if Generated.RefineCC.outsideIsOr then .orFix else .asIs
+
+/-- **C07 for the source as it is now**: `check_spec_partial` at the variant regenerated from the source
+    (`inside_right`, `invalid`, `col_right` and the search are recognised textually by the translator or the
+    build has no `Generated/RefineCC.lean`). -/
+theorem source_check_spec (P : Params) (A B : Dataset) (hw : WfShapes A B)
+    (hin : ∀ (r c : Nat) (dL : List Val) (mL : List Nat), A.disp[r]? = some dL → A.mask[r]? = some mL → c < dL.length →
+      ¬(P.offset > 0 ∧ isBorder P.offset A.disp.length dL.length r c = true) →
+      Flags.isInvalid (mL.getD c 0) = false → insideRight dL.length (colRight c (dL.getD c .nan)) = true)
+    (r c : Nat) (dL dR : List Val) (mL : List Nat)
+    (hA : A.disp[r]? = some dL) (hB : B.disp[r]? = some dR) (hM : A.mask[r]? = some mL) (hc : c < dL.length) :
+    allOK (clausesPix P (decide (P.offset > 0) && isBorder P.offset A.disp.length dL.length r c)
+      dL dR c (mL.getD c 0) (outPix (check sourceVariant P A B) r c)) = true :=
+  check_spec_partial sourceVariant P A B hw hin r c dL dR mL hA hB hM hc
 
 end Pandora.C07
